@@ -235,6 +235,18 @@ pub fn run_c02(cx: &Cx) -> PropResult {
     let per_decl = cx.n(1_000, 20_000);
     let n_interp = cx.n(20_000, 600_000);
     let acc = parallel(cx, &|shard, acc| {
+        if shard == 0 && (cfg!(feature = "no_dholder") || cfg!(feature = "no_keep")) {
+            // ./check had to build the harness without its hand-written declarations
+            let why = std::env::var("VCHECK_OWN_DERIVE_ERROR").unwrap_or_default();
+            acc.violation(
+                format!(
+                    "the derive macro no longer compiles hand-written declarations of the harness ({why}):{}{}",
+                    if cfg!(feature = "no_dholder") { " struct DHolder with FieldAdded defaults of a type that is neither Clone nor Sync (vcheck/src/props/graphs.rs)" } else { "" },
+                    if cfg!(feature = "no_keep") { " Keep / KeepE with transient and added defaults that hold Arc<..> (vcheck/src/props/isolation.rs)" } else { "" }
+                ),
+                json!({"own_derives_do_not_compile": true}),
+            );
+        }
         for (i, d) in all.iter().enumerate() {
             if i % cx.shards != shard {
                 continue;
@@ -295,6 +307,9 @@ pub fn replay_c02(case: &Value) -> Verdict {
             Some((_, why)) => Verdict::Fail(format!("the derive macro does not compile declaration {n}: {why}")),
             None => Verdict::Pass,
         };
+    }
+    if case.get("own_derives_do_not_compile").is_some() {
+        return if cfg!(feature = "no_dholder") || cfg!(feature = "no_keep") { Verdict::Fail("the derive macro does not compile the hand-written declarations of the harness".into()) } else { Verdict::Pass };
     }
     if let Some(dp) = case.get("deep") {
         let name = dp["decl"].as_str().unwrap_or("RecTree").to_string();
